@@ -537,8 +537,11 @@ class BasicContiguousVector<cntgs::Options<Option...>, Parameter...>
     void copy_assign(const BasicContiguousVector& other)
     {
         destruct_if_owned();
+        // Until everything that might throw has succeeded this is an empty vector of capacity zero.
         locator_->release(get_allocator(), memory_begin());
+        max_element_count_ = {};
         memory_ = other.memory_;
+        locator_->release(get_allocator(), memory_begin());
         ElementLocatorAndFixedSizes other_locator{other.locator_, other.memory_begin(),     other.max_element_count_,
                                                   memory_begin(), other.max_element_count_, get_allocator()};
         BasicContiguousVector::insert_into(*other_locator, other.max_element_count_, memory_, other);
